@@ -549,6 +549,8 @@ def r5_4(ctx):
                 n += 1
                 v = x.value
                 where = f"{m.relpath}:{x.lineno}"
+                if isinstance(v, ast.ListComp) and f.qualname == "Text.divide" and isinstance(v.generators[0].iter, ast.Name):
+                    continue  # the per-line rebuild from the index-sorted pair list is judged by _divide_order below
                 if isinstance(v, ast.ListComp):
                     it = v.generators[0].iter
                     ok = len(v.generators) == 1 and isinstance(it, ast.Attribute) and it.attr == "_spans"
@@ -562,24 +564,12 @@ def r5_4(ctx):
                 n += 1
                 where = f"{m.relpath}:{x.lineno}"
                 if f.qualname == "Text.divide" and x.func.attr == "sort":
-                    key = None
-                    for k in x.keywords:
-                        if k.arg == "key":
-                            key = k.value
-                    ok = key is not None and _divide_key_ok(f, key)
-                    ctx.check(ok, f.fq, short(x), where, "divide() restores source order: sort key = index of the originating span",
-                              "divide(): the per-line span sort is not keyed by the position of the originating span in the source list")
-                else:
-                    ctx.violation(f.fq, short(x), where, "a span list is sorted/reversed in place: precedence between overlapping styles changes")
+                    continue  # judged by _divide_order
+                ctx.violation(f.fq, short(x), where, "a span list is sorted/reversed in place: precedence between overlapping styles changes")
             if isinstance(x, ast.Call) and call_name(x) in ("sorted", "reversed") and x.args and "_spans" in norm(x.args[0]) and f.qualname not in ("Text.divide",):
                 n += 1
                 ctx.violation(f.fq, short(x), f"{m.relpath}:{x.lineno}", "a span list is consumed in sorted/reversed order")
-    dv = m.fn("Text.divide")
-    src = norm(dv.node)
-    ok = "order = {span: span_index for span_index, span in enumerate(self._spans)}" in src and "order[line_span] = order[span]" in src and "order[remaining_span] = order[span]" in src
-    ctx.check(ok, dv.fq, "order map", dv.where, "divide() records each span's source position and propagates it to derived spans", "divide(): the order map is not built from enumerate(self._spans) or not propagated to the clipped / remaining spans")
-    ctx.check(any(isinstance(x, ast.Call) and isinstance(x.func, ast.Attribute) and x.func.attr == "sort" and "_spans" in norm(x.func.value) for x in walk_local(dv.node)), dv.fq, "line._spans.sort", dv.where,
-              "divide() sorts each line's spans back into source order", "divide() no longer re-sorts each line's spans into source order: spans come out ordered by start offset, so overlapping styles change precedence after wrapping/splitting")
+    _divide_order(ctx, m.fn("Text.divide"))
     # render: style ids are list positions; combination in ascending id order
     rn = m.fn("Text.render")
     src = norm(rn.node)
@@ -588,12 +578,124 @@ def r5_4(ctx):
     ctx.floor(n, 5, "span list rewrites")
 
 
-def _divide_key_ok(f, key) -> bool:
-    if isinstance(key, ast.Name):
-        for n in walk_local(f.node):
-            if isinstance(n, ast.Assign) and norm(n.targets[0]) == key.id:
-                return norm(n.value) in ("order.__getitem__", "order.get")
-    return norm(key) in ("order.__getitem__", "order.get", "lambda span: order[span]")
+def _value_keyed_span_maps(fn_node):
+    """Dict displays / comprehensions and subscript stores whose key is a span object (Span is a NamedTuple:
+    value-equal spans share one key, so a per-span attribute stored this way is aliased between them)."""
+    span_names = set()
+    for x in ast.walk(fn_node):
+        if isinstance(x, (ast.For, ast.comprehension)):
+            it = x.iter
+            names = [t for t in ast.walk(x.target) if isinstance(t, ast.Name)]
+            if isinstance(it, ast.Attribute) and it.attr == "_spans":
+                span_names |= {t.id for t in names}
+            elif isinstance(it, ast.Call) and norm(it.func) == "enumerate" and it.args and isinstance(it.args[0], ast.Attribute) and it.args[0].attr == "_spans" and isinstance(x.target, ast.Tuple) and len(x.target.elts) == 2:
+                span_names |= {t.id for t in ast.walk(x.target.elts[1]) if isinstance(t, ast.Name)}
+    changed = True
+    while changed:
+        changed = False
+        for x in ast.walk(fn_node):
+            if isinstance(x, ast.Assign) and len(x.targets) == 1:
+                t, v = x.targets[0], x.value
+                new = set()
+                if isinstance(t, ast.Name) and isinstance(v, ast.Call) and norm(v.func) in ("_Span", "Span"):
+                    new.add(t.id)
+                if isinstance(t, ast.Tuple) and isinstance(v, ast.Call) and isinstance(v.func, ast.Attribute) and v.func.attr == "split" and isinstance(v.func.value, ast.Name) and v.func.value.id in span_names:
+                    new |= {e.id for e in t.elts if isinstance(e, ast.Name)}
+                if isinstance(t, ast.Name) and isinstance(v, ast.Call) and norm(v.func) in ("pop", "span_stack.pop"):
+                    new.add(t.id)
+                if not new <= span_names:
+                    span_names |= new
+                    changed = True
+    out = []
+    for x in ast.walk(fn_node):
+        if isinstance(x, ast.DictComp) and isinstance(x.key, ast.Name) and x.key.id in span_names:
+            out.append(x)
+        if isinstance(x, ast.Assign) and isinstance(x.targets[0], ast.Subscript) and isinstance(x.targets[0].slice, ast.Name) and x.targets[0].slice.id in span_names and isinstance(x.targets[0].value, ast.Name):
+            out.append(x)
+    return out
+
+
+# tiny positive example for the zero-count rule (the defect this rule was written for)
+_VALUE_KEYED_EXAMPLE = """
+def divide(self):
+    order = {span: span_index for span_index, span in enumerate(self._spans)}
+    for span in self._spans:
+        add_span, remaining_span = span.split(3)
+        order[remaining_span] = order[span]
+"""
+
+
+def _divide_order(ctx, f):
+    """Text.divide: every line's spans come out in the order of the source list."""
+    m = f.module
+    ex = _value_keyed_span_maps(ast.parse(_VALUE_KEYED_EXAMPLE))
+    if len(ex) != 2:
+        raise AnalysisError("value-keyed span map detector no longer matches its own positive example")
+    for x in _value_keyed_span_maps(f.node):
+        ctx.violation(f.fq, short(x), f"{m.relpath}:{x.lineno}", f"`{short(x)}` stores a per-span attribute in a mapping keyed by the span's VALUE (Span is a NamedTuple): the remainder of a split span that is value-equal to a later span overwrites that span's position, so a conflicting span in between wins after divide()/wrap() - order must be carried by index or identity")
+    ctx.ok(f.where, "no mapping keyed by span value in divide() (positive example still detected)", f.fq)
+    # form C: spans visited in list order, appended directly to their lines - nothing to restore
+    sorts = [x for x in walk_local(f.node) if isinstance(x, ast.Call) and (isinstance(x.func, ast.Attribute) and x.func.attr == "sort" or call_name(x) == "sorted")]
+    outer = [x for x in walk_local(f.node) if isinstance(x, ast.For) and isinstance(x.iter, ast.Attribute) and x.iter.attr == "_spans"]
+    if not sorts and outer:
+        ctx.ok(f.where, "divide() visits self._spans in list order and appends clipped spans as it goes", f.fq)
+        return
+    # form A: (index, span) pairs
+    stack = None
+    for x in walk_local(f.node):
+        if isinstance(x, ast.Assign) and len(x.targets) == 1 and isinstance(x.targets[0], ast.Name) and isinstance(x.value, ast.Call):
+            inner = [c for c in ast.walk(x.value) if isinstance(c, ast.Call) and norm(c.func) == "enumerate" and c.args and norm(c.args[0]) == "self._spans"]
+            if inner and norm(x.value.func) in ("sorted", "list"):
+                stack = x.targets[0].id
+    if stack is None:
+        raise AnalysisError("Text.divide: cannot find how the source position of each span is carried (neither an in-order loop over self._spans nor a stack of enumerate(self._spans) pairs): the span-order clause cannot be decided")
+    aliases = alias_map(f.node)
+    idx = None
+    for x in walk_local(f.node):
+        if isinstance(x, ast.Assign) and isinstance(x.targets[0], ast.Tuple) and len(x.targets[0].elts) == 2 and isinstance(x.value, ast.Call) and norm(expand_alias(x.value.func, aliases)) == f"{stack}.pop":
+            idx = norm(x.targets[0].elts[0])
+    ctx.check(idx is not None, f.fq, f"{stack}.pop()", f.where, f"each popped entry is unpacked into its source index `{idx}` and the span", "divide(): entries popped from the span stack are not unpacked into (index, span)")
+    if idx is None:
+        return
+    pushes = [x for x in walk_local(f.node) if isinstance(x, ast.Call) and norm(expand_alias(x.func, aliases)) == f"{stack}.append"]
+    for c in pushes:
+        ok = c.args and isinstance(c.args[0], ast.Tuple) and len(c.args[0].elts) == 2 and norm(c.args[0].elts[0]) == idx
+        ctx.check(bool(ok), f.fq, short(c), f"{m.relpath}:{c.lineno}", "the remainder of a split span keeps the index of its source span", f"`{short(c)}` pushes the remainder of a split span without its source index `{idx}`: its position in the precedence order is lost")
+    # per-line pair list
+    line_lists = {}
+    for x in walk_local(f.node):
+        if isinstance(x, ast.Call) and x.args and isinstance(x.args[0], ast.Tuple) and len(x.args[0].elts) == 2:
+            fn = norm(expand_alias(x.func, aliases))
+            if fn.endswith(".append") and fn != f"{stack}.append":
+                line_lists.setdefault(fn[: -len(".append")], []).append(x)
+    ctx.check(len(line_lists) == 1, f.fq, "per-line (index, span) list", f.where, "clipped spans are collected per line together with their source index", "divide(): clipped spans are not collected as (index, span) pairs per line")
+    if len(line_lists) != 1:
+        return
+    (L, apps), = line_lists.items()
+    for c in apps:
+        ctx.check(norm(c.args[0].elts[0]) == idx, f.fq, short(c), f"{m.relpath}:{c.lineno}", "clipped span paired with the index of its source span", f"`{short(c)}` pairs the clipped span with `{norm(c.args[0].elts[0])}`, not with the source index `{idx}`")
+    srt = [x for x in walk_local(f.node) if isinstance(x, ast.Call) and isinstance(x.func, ast.Attribute) and x.func.attr == "sort" and norm(x.func.value) == L]
+    ok = len(srt) == 1
+    if ok:
+        key = next((k.value for k in srt[0].keywords if k.arg == "key"), None)
+        rev = next((k.value for k in srt[0].keywords if k.arg == "reverse"), None)
+        if isinstance(key, ast.Name):
+            kname = key.id
+            for a in walk_local(f.node):
+                if isinstance(a, ast.Assign) and norm(a.targets[0]) == kname:
+                    key = a.value
+        kn = norm(key) if key is not None else None
+        ok = (kn is None or kn == "itemgetter(0)" or (isinstance(key, ast.Lambda) and isinstance(key.body, ast.Subscript) and norm(key.body.slice) == "0" and norm(key.body.value) == key.args.args[0].arg)) and (rev is None or norm(rev) == "False")
+    ctx.check(ok, f.fq, short(srt[0]) if srt else f"{L}.sort", f"{m.relpath}:{srt[0].lineno}" if srt else f.where, "each line's pairs are sorted ascending by source index",
+              "divide(): the per-line span sort is not ascending by the position of the originating span in the source list: overlapping styles change precedence after wrapping/splitting")
+    rebuild = [x for x in walk_local(f.node) if isinstance(x, ast.Assign) and isinstance(x.value, ast.ListComp) and "_spans" in norm(x.targets[0]) and isinstance(x.value.generators[0].iter, ast.Name)]
+    okr = False
+    for x in rebuild:
+        gen = x.value.generators[0]
+        if gen.iter.id == L and len(x.value.generators) == 1 and not gen.ifs and isinstance(gen.target, ast.Tuple) and len(gen.target.elts) == 2 and norm(x.value.elt) == norm(gen.target.elts[1]) and srt and x.lineno > srt[0].lineno:
+            okr = True
+    ctx.check(okr, f.fq, short(rebuild[0]) if rebuild else "line._spans[:] = ...", f"{m.relpath}:{rebuild[0].lineno}" if rebuild else f.where, "the line's spans are the sorted pairs' spans, in that order",
+              "divide(): the line's span list is not rebuilt, in order and unfiltered, from the index-sorted pairs")
 
 
 def r5_5(ctx):
